@@ -164,6 +164,16 @@ Theorem C02_legacy_sensitive_any : forall t t' idx script script' ht c c' p,
 Proof. exact legacy_sensitive_any. Qed.
 Print Assumptions C02_legacy_sensitive_any.
 
+(* legacy, every hash type and every input index, SIGHASH_SINGLE above index 0 included: the hashed copy then carries
+   blanked outputs that the wire format cannot represent, so well-formedness is asked of the copy without them *)
+Theorem C02_legacy_sensitive_full : forall t t' idx script script' ht c c' p,
+  legacy_tx t idx script ht = Some c -> legacy_tx t' idx script' ht = Some c' ->
+  wf_tx (legacy_core ht idx c) = true -> wf_tx (legacy_core ht idx c') = true ->
+  preimage_legacy t idx script ht = Some p -> preimage_legacy t' idx script' ht = Some p ->
+  sig_view (ht_rp ht) c = sig_view (ht_rp ht) c'.
+Proof. exact legacy_sensitive_full. Qed.
+Print Assumptions C02_legacy_sensitive_full.
+
 (* taproot: equal pre-images force equal covered views (all hash types, key and script path, with or without annex) *)
 Theorem C02_v1_sensitive : forall (H1 : bytes -> bytes),
   (forall a b, H1 a = H1 b -> a = b) -> (forall a, length (H1 a) = 32%nat) ->
